@@ -245,6 +245,7 @@ def d2(ctx: Ctx):
                 continue
             items.sort(key=lambda t: (t[0].lineno, t[0].col_offset))
             fields: List[List[int]] = []
+            misaligned: List[Tuple[str, List[int], List[Optional[int]]]] = []
             natural = True
             try:
                 for e, sink, sname in items:
@@ -255,6 +256,13 @@ def d2(ctx: Ctx):
                         if not bits:
                             continue
                         fields.append(bits)
+                        try:
+                            pure = all(isinstance(x, (ast.Name, ast.Constant, ast.Load, ast.RShift, ast.BitAnd)) or (isinstance(x, ast.BinOp) and isinstance(x.op, (ast.RShift, ast.BitAnd))) for x in ast.walk(e))
+                            vec = bits_of(bit_eval(e, full), var) if pure else bits
+                            if vec != bits:
+                                misaligned.append((unparse(e), bits, vec))
+                        except BitEvalError:
+                            pass  # arithmetic on single bits (MAX artifact modes): alignment not a bit-vector question
             except BitEvalError as ex:
                 raise AnalysisError("D2", f"{dec}.{fname}.{var}", f"cannot evaluate a bit extraction: {ex}")
             if len(fields) < 2:
@@ -285,6 +293,18 @@ def d2(ctx: Ctx):
                 signature=None if ok else f"fields {[sorted(f, reverse=True) for f in fields][:12]}",
                 props=["C17"] if dec == "rattoppm" else (["C16", "C17"] if dec in ("mgetoppm", "cm3toppm", "veftopng") else ["C16"]),
             )
+
+
+            if items[0][1]:
+                oka = not misaligned
+                ctx.ob(
+                    f"{dec}.{fname}:byte#{ordinal[(fname, var, br)]}:aligned",
+                    oka,
+                    "" if oka else f"`{misaligned[0][0]}` takes bits {sorted(misaligned[0][1], reverse=True)} of the byte but does not bring them down to bit 0 (value bits, LSB first: {misaligned[0][2]}): the pixel value is a multiple of the intended one and selects the wrong palette entry",
+                    file=rel,
+                    line=line,
+                    props=["C17"] if dec == "rattoppm" else (["C16", "C17"] if dec in ("mgetoppm", "cm3toppm", "veftopng") else ["C16"]),
+                )
 
 
 def _def_ordinal(tree, fn) -> int:
@@ -1230,6 +1250,7 @@ def d12(ctx: Ctx):
     st = D.fn("veftopng", "start")
     rel = DECODERS["veftopng"]
     found: Dict[int, Tuple] = {}
+    named: Dict[int, Dict[str, int]] = {}
     for n in ast.walk(st):
         if isinstance(n, ast.If) and isinstance(n.test, ast.Compare) and len(n.test.ops) == 1 and isinstance(n.test.left, ast.Subscript) and isinstance(n.test.left.slice, ast.Constant) and n.test.left.slice.value == 1 and isinstance(n.test.comparators[0], ast.Constant):
             k = n.test.comparators[0].value
@@ -1241,11 +1262,37 @@ def d12(ctx: Ctx):
             if len(ints) == 5:
                 eq = isinstance(n.test.ops[0], ast.Eq)
                 found[k] = (ints, eq, n.lineno)
+                named[k] = {a: b for a, b in vals.items() if isinstance(b, int)}
     ctx.need(len(found) >= 2, "veftopng.types", f"only {len(found)} `if data[1] == k` type branches recognised (idiom lost)")
     for k, want in VEF_TYPES.items():
         got = found.get(k)
         ok = got is not None and got[1] and sorted(got[0]) == sorted(want)
         ctx.ob(f"veftopng.type{k}", ok, "" if ok else f"VEF type byte {k} selects {got[0] if got else None} (test is equality: {got[1] if got else None}); documented: width/height/colours/record length/screen type = {want}", file=rel, line=got[2] if got else st.lineno, props=["C16", "C18", "C17", "C19"])
+    # column-wise: each variable takes the documented value for each type (which variable is which follows from its column)
+    ks = sorted(VEF_TYPES)
+    if all(k in named for k in ks) and len({tuple(sorted(named[k])) for k in ks}) == 1:
+        cols = {v: tuple(named[k][v] for k in ks) for v in named[ks[0]]}
+        want_cols = sorted(tuple(VEF_TYPES[k][i] for k in ks) for i in range(5))
+        okc = sorted(cols.values()) == want_cols
+        ctx.ob("veftopng.type-columns", okc, "" if okc else f"across the type bytes {ks} the assigned values are {sorted(cols.values())}; documented columns (width, height, colours, record length, screen type): {want_cols}", file=rel, line=st.lineno, props=["C16", "C18", "C17", "C19"])
+        # the pixel unpacking is selected by the screen type: 16-colour types unpack 2 pixels per byte, 4-colour types 4
+        want_type_col = tuple(VEF_TYPES[k][4] for k in ks)
+        tvar = next((v for v, c in cols.items() if c == want_type_col), None)
+        colours = {VEF_TYPES[k][4]: VEF_TYPES[k][2] for k in ks}
+        if tvar is not None:
+            covered: Dict[int, int] = {}
+            for n in ast.walk(st):
+                if isinstance(n, ast.If) and tvar in names_loaded(n.test) and any(isinstance(c, ast.Call) and call_name(c) == "append" for b in n.body for c in ast.walk(b)):
+                    tks = [c.comparators[0].value for c in ast.walk(n.test) if isinstance(c, ast.Compare) and isinstance(c.left, ast.Name) and c.left.id == tvar and isinstance(c.ops[0], ast.Eq) and isinstance(c.comparators[0], ast.Constant)]
+                    n_app = sum(1 for b in n.body for c in ast.walk(b) if isinstance(c, ast.Call) and call_name(c) == "append")
+                    for tk in tks:
+                        covered[tk] = n_app
+            for tk, ncol in sorted(colours.items()):
+                if ncol not in (16, 4):
+                    continue
+                per_byte = 2 if ncol == 16 else 4
+                okd = covered.get(tk) == per_byte
+                ctx.ob(f"veftopng.unpack:type{tk}", okd, "" if okd else f"screen type {tk} ({ncol} colours) needs {per_byte} pixels unpacked from every byte; the unpacking branch selected for it appends {covered.get(tk)}: pictures of that type come out empty or with the wrong pixel count", file=rel, line=st.lineno, props=["C16", "C18"])
     # palette = bytes 2..17, image data from byte 18
     from .pyast import ast_contains as _ac
 
@@ -1445,6 +1492,11 @@ def d14(ctx: Ctx):
                 if isinstance(st, ast.Expr) and _is_discarded_read(st.value):
                     n += 1
                     ok = not in_loop
+                    if dec == "cm3toppm":
+                        rd = _read_call(st.value)
+                        sz = rd.args[0].value if rd is not None and rd.args and isinstance(rd.args[0], ast.Constant) else None
+                        oks = sz == 243
+                        ctx.ob(f"{dec}.skip#{n}:size", oks, "" if oks else f"the CM3 pattern block is 243 bytes; `{unparse(st.value)}` skips {sz}: every byte after it is misaligned for files saved with patterns", file=rel, line=st.lineno)
                     ctx.ob(
                         f"{dec}.skip#{n}",
                         ok,
@@ -1545,3 +1597,53 @@ def d15(ctx: Ctx):
             file=rel,
             line=fn.lineno,
         )
+
+
+@rule("D17", "BYTE-READS / ENTRY: every value converted with ord() comes from a one-byte read; every console entry point hands the arguments after the program name to start(); a remaining-sample counter goes down by one per sample", ["C16", "C17", "C18", "C11"], floor=20, default_props=["C16", "C17"])
+def d17(ctx: Ctx):
+    from .pyast import pyfacts
+
+    py = pyfacts(ctx)
+    D = decoderfacts(ctx)
+    for dec, rel in sorted(DECODERS.items()):
+        m = D.mods[dec]
+        k = 0
+        for c in ast.walk(m.tree):
+            if isinstance(c, ast.Call) and isinstance(c.func, ast.Name) and c.func.id == "ord" and len(c.args) == 1:
+                a = c.args[0]
+                while isinstance(a, ast.Call) and call_name(a) in ("iotostr", "bytes", "chr") and len(a.args) == 1:
+                    a = a.args[0]
+                if isinstance(a, ast.Call) and call_name(a) == "read" and isinstance(a.func, ast.Attribute):
+                    k += 1
+                    ok = len(a.args) == 1 and isinstance(a.args[0], ast.Constant) and a.args[0].value == 1
+                    ctx.ob(f"{dec}:ord(read)#{k}", ok, "" if ok else f"`{unparse(c)}`: ord() needs exactly one byte; with this read size every file that reaches the statement fails (or a byte of the stream is skipped)", file=rel, line=c.lineno)
+        # counters: `n = n - 1` / `n -= 1` next to a sample write
+        for fn in [x for x in ast.walk(m.tree) if isinstance(x, ast.FunctionDef)]:
+            for st in ast.walk(fn):
+                tgt = _decrement_target(st)
+                if tgt is None:
+                    continue
+                step = st.value if isinstance(st, ast.AugAssign) else st.value.right
+                if not isinstance(step, ast.Constant):
+                    continue
+                # the innermost loop around the decrement is governed by the counter
+                loops = [l for l in ast.walk(fn) if isinstance(l, (ast.For, ast.While)) and any(x is st for x in ast.walk(l))]
+                if not loops:
+                    continue
+                inner = min(loops, key=lambda l: sum(1 for _ in ast.walk(l)))
+                used_as_guard = (isinstance(inner, ast.While) and tgt in names_loaded(inner.test)) or any(isinstance(i_, ast.If) and tgt in names_loaded(i_.test) and any(isinstance(b, ast.Break) for b in i_.body) for i_ in ast.walk(inner))
+                if not used_as_guard:
+                    continue
+                ok = step.value == 1
+                nstep = len([o for o in ctx.obligations.get("D17", []) if o.construct.startswith(f"{dec}.{fn.name}:step")]) + 1
+                ctx.ob(f"{dec}.{fn.name}:step#{nstep}", ok, "" if ok else f"`{unparse(st)}`: the counter `{tgt}` stands for the samples / repetitions left and is tested against 0; a step of {step.value} makes the loop run too long or never end", file=rel, line=st.lineno, props=["C17", "C18"])
+    # console entry points
+    for rel, m in sorted(py.modules.items()):
+        mains = [f for f in m.tree.body if isinstance(f, ast.FunctionDef) and f.name == "main"]
+        for f in mains:
+            calls = [c for c in ast.walk(f) if isinstance(c, ast.Call) and call_name(c) == "start"]
+            if not calls:
+                continue
+            a = calls[0].args[0] if calls[0].args else None
+            ok = a is not None and unparse(a).replace(" ", "") == "sys.argv[1:]"
+            ctx.ob(f"{rel.split('/')[-1]}:main", ok, "" if ok else f"main() calls `{unparse(calls[0])}`: the command line handed to the option parser is not `sys.argv[1:]` (the program name is parsed as an argument, or the first argument is dropped)", file=rel, line=f.lineno, props=["C11"] if rel.endswith("decb_to_b09.py") else ["C18"])
